@@ -587,7 +587,10 @@ def load(
                 p = -p
             r = bdd.find_or_add(i, p, q)
             umap[abs(u)] = r
-    bdd.roots.update(roots)
+    def map_root(u):
+        r = umap[abs(u)]
+        return -r if u < 0 else r
+    bdd.roots.update(map(map_root, roots))
     return bdd
 
 
